@@ -7,6 +7,9 @@ Rules
   F2  inverse consistency: substituting the forward map into the inverse's equations gives identities - half-angle longitude
       Y/(X+norm) = tan(lon/2); the latitude update map has the true latitude as a fixed point; height norm/cos(lat) - N = h.
       A path of the inverse whose longitude does not depend on Y on a set of longitudes of non-zero width is a violation.
+  F4  stopping tolerance: the latitude iteration contracts with a factor q of about e2 <= 0.0069, so when it stops at |delta| <= tol
+      the remaining error is at most tol q/(1-q); the 1e-9 rad claim therefore needs tol <= 1e-9 (1-q)/q = 1.44e-7 (necessary
+      condition on the folded constant; the library uses 1e-11)
   F3  ranges: every definition of the returned latitude is an atan(..) value, the longitude is 2*atan(..) (or atan2), and they are
       passed through makeGeodeticCoordinates in (latitude, longitude, altitude) order
 Not decided: convergence of the latitude iteration, the 1e-9 rad / 1 mm bounds, finiteness for every input (floating point)."""
@@ -190,6 +193,16 @@ def check_inverse(fx, R, f, fwd):
     cond = deep_unwrap(sx(L['c']))
     R.check(isinstance(cond, tuple) and cond[0] in ('>', '>=') and cond[1] == 'delta', 'F2', 'ECEFConverter::toWGS84:loop-exit', 'loop condition is %s' % (cond,), 'iterates while delta > tolerance',
             loc, 'E-STATE') if True else None
+    # ---- F4 stopping tolerance ----------------------------------------------------------------------
+    cnode = strip_casts(L['c'])
+    tol = const_value(cnode.get('r')) if cnode.get('k') == 'Bin' else None
+    if tol is None:
+        R.undecided('F4', 'ECEFConverter::toWGS84:tolerance', 'stopping tolerance is not a constant the front end folds')
+    else:
+        q = 0.0069
+        bound = 1e-9 * (1 - q) / q
+        R.check(0 < tol <= bound, 'F4', 'ECEFConverter::toWGS84:tolerance', 'the iteration stops at |delta| <= %g; with contraction factor about e2 = 0.0069 the latitude error can then reach %.3g rad, above the 1e-9 rad of the statement '
+                '(tolerance must not exceed %.3g)' % (tol, tol * q / (1 - q), bound), 'tolerance %g <= %.3g' % (tol, bound), loc, 'E-INT')
     # ---- altitude -------------------------------------------------------------------------------
     st1 = lb[0].copy()
     st1.locals[ids['latitude']] = lat
